@@ -63,8 +63,9 @@ def idx_list(sl):
 class Tr:
     """expression -> (Lean text, kind) with kind in {node, int, bool, prop}"""
 
-    def __init__(self, nodes, funcs=(), flags=()):
+    def __init__(self, nodes, funcs=(), flags=(), rnd=None):
         self.nodes, self.funcs, self.flags = set(nodes), dict(funcs), dict(flags)
+        self.rnd = rnd      # name of the rounding function applied to every float subtraction (round 4)
 
     def node(self, e):
         need(isinstance(e, ast.Name) and e.id in self.nodes, f"index `{ast.unparse(e)}` is not a plain node variable")
@@ -91,6 +92,8 @@ class Tr:
             a, ta = self.tr(e.left)
             b, tb = self.tr(e.right)
             need(ta == "int" and tb == "int", f"{u}: difference of non-integers")
+            if self.rnd:
+                return f"({self.rnd} ({a} - {b}))", "int"
             return f"({a} - {b})", "int"
         if isinstance(e, ast.Call) and isinstance(e.func, ast.Name):
             if e.func.id == "abs" and len(e.args) == 1:
@@ -202,9 +205,14 @@ def inline_return(src, name):
             depth -= 1
             if depth == 0:
                 break
-    params = [p.strip().split()[-1] for p in re.sub(r"\[[^\]]*\]", "", m.group(1)).split(",")]
+    decls = [p.strip().split() for p in re.sub(r"\[[^\]]*\]", "", m.group(1)).split(",")]
+    params = [d[-1] for d in decls]
+    CTYPES[name] = [(d[-1], " ".join(d[:-1])) for d in decls]
     text = " ".join(rest[: j + 1].split())
     return params, ast.parse(text, mode="eval").body, text
+
+
+CTYPES = {}      # C declarations of the parameters of the inline conditions (round 4)
 
 
 def main():
@@ -228,8 +236,30 @@ def main():
         L += [f"/-- `{nm}`: `return {text}` -/",
               f"def {lean} {sig} (s t k l : Nat) : Bool :=",
               f"  decide {Tr(NODES).prop(expr)}", ""]
+        if want[0] == "D":
+            # round 4: the same expression as the C compiler evaluates it — operands `FIELD_t` (binary32),
+            # so every subtraction is rounded to binary32 (`rnd`); `abs` and `<` are exact
+            L += [f"/-- `{nm}` with every floating-point subtraction rounded by `rnd` (`D`, `eps` counted in "
+                  "units of a power of two) -/",
+                  f"def {lean}R (rnd : Int → Int) {sig} (s t k l : Nat) : Bool :=",
+                  f"  decide {Tr(NODES, rnd='rnd').prop(expr)}", ""]
     need(re.search(r"^\s*rewire_cond_deg\s+cond_deg_true\s*=\s*NULL\s*$", pyx, re.M),
          "cond_deg_true = NULL not found")
+    # ---- round 4: the C types the conditions compute in
+    ty = open(os.path.join(REPO, "src/pyunicorn/core/_ext/types.pxd")).read()
+    tdef = {new: old for old, new in re.findall(r"^ctypedef\s+([\w.]+)\s+(\w+)\s*$", ty, re.M)}
+
+    def resolve(t):
+        seen = 0
+        while t in tdef and seen < 5:
+            t, seen = tdef[t], seen + 1
+        return t
+    for nm in ("cond_len_c1", "cond_len_c2"):
+        need(dict(CTYPES[nm]).get("eps") == "float", f"{nm}: eps is declared `{dict(CTYPES[nm]).get('eps')}`")
+        need(dict(CTYPES[nm]).get("D") == "FIELD_t", f"{nm}: D is declared `{dict(CTYPES[nm]).get('D')}`")
+    L += ["/-- the C element type of `D` in `cond_len_c1/2` (`FIELD_t` resolved through `types.pxd`) and the type of `eps` -/",
+          f'def condFieldType : String := "{resolve("FIELD_t")}"',
+          'def condEpsType : String := "float"', ""]
 
     # ---- the rewiring loop
     st = body_stmts(block(pyx, r"^cdef void _randomly_rewire_geomodel\(", "_randomly_rewire_geomodel"),
@@ -245,7 +275,9 @@ def main():
         need(isinstance(d, ast.Assign) and ast.unparse(d.targets[0]) == nm, f"draw of {nm}")
         need(ast.unparse(d.value) == "np.floor(rd.random() * E)", f"{nm} = `{ast.unparse(d.value)}`")
     L += ["/-- `edge = np.floor(rd.random() * E)` for the value `u` of `rd.random()` (both draws) -/",
-          "def geoDraw (u : Rat) (E : Int) : Int := Rat.floor (u * (E : Rat))", ""]
+          "def geoDraw (u : Rat) (E : Int) : Int := Rat.floor (u * (E : Rat))",
+          "/-- the same with the binary64 product rounded by `rnd` (round 4) -/",
+          "def geoDrawR (rnd : Rat → Rat) (u : Rat) (E : Int) : Int := Rat.floor (rnd (u * (E : Rat)))", ""]
     need(ast.unparse(r1) == "(s, t) = edges[edge1, [0, 1]]" or ast.unparse(r1) == "s, t = edges[edge1, [0, 1]]",
          f"read of edge1: `{ast.unparse(r1)}`")
     need(ast.unparse(r2) in ("(k, l) = edges[edge2, [0, 1]]", "k, l = edges[edge2, [0, 1]]"),
@@ -392,7 +424,8 @@ def main():
     for s_, nm, N in ((wb[0], "n_1", "N1"), (wb[1], "n_2", "N2")):
         need(ast.unparse(s_) == f"{nm} = int(random.random() * {N})", f"sparse draw `{ast.unparse(s_)}`")
     L += ["/-- `n_1 = int(random.random() * N1)`, `n_2 = int(random.random() * N2)` -/",
-          "def sparseDraw (u : Rat) (N : Int) : Int := Rat.floor (u * (N : Rat))"]
+          "def sparseDraw (u : Rat) (N : Int) : Int := Rat.floor (u * (N : Rat))",
+          "def sparseDrawR (rnd : Rat → Rat) (u : Rat) (N : Int) : Int := Rat.floor (rnd (u * (N : Rat)))"]
     brk = wb[2]
     need(isinstance(brk, ast.If) and ast.unparse(brk.body[0]) == "break" and not brk.orelse, "sparse: if …: break")
     n12 = Tr(["n_1", "n_2"])
